@@ -149,6 +149,10 @@ def run_main(cls):
             if args.proof_status != "ok":
                 ns *= 3   # a tie broke: search harder for a concrete failing input
             p.phase = "search"
+            # earlier calls of the same process (rarely used forms, rejected calls) must leave nothing behind
+            import vgen
+            gen.process_history(p.rng, blackboxes=list(vgen.FLOPS) + list(vgen.FLOPS_ALT) + list(getattr(p, "shared_blackboxes", [])))
+            p.stats.bump("history:process-prelude")
             p.corpus()
             p.phase = "corr"
             p.correspond(nc)
